@@ -16,4 +16,6 @@ if [ -f /repo/go.sum ]; then cat /repo/go.sum go.sum | sort -u > go.sum.new && m
 for p in $($GO list ./... 2>/dev/null); do
   $GO test -c -tags verif -vet=off -o /dev/null "$p" || exit 1
 done
+# the concurrency package is also built with the race detector
+$GO test -c -race -tags verif -vet=off -o /dev/null ./conc || exit 1
 echo setup ok
